@@ -36,6 +36,26 @@ def snap (g : Graph Int) (s : St Int) (ret : Option Int) (raised : Bool) : J :=
          ("undo", J.ofList (fun p => J.arr [J.num p.1, J.num p.2]) s.lastUndo),
          ("sw", J.bool s.sw)]
 
+/-- driver-only: re-tabulate the function-valued fields (extensionally the identity on ranks < n)
+so that closures do not pile up over a long history -/
+def freeze (g : Graph Int) (s : St Int) : St Int :=
+  let n := g.n
+  let tab {α : Type} (f : Nat → α) : Array α := (Array.range n).map f
+  let v0 := tab (s.val false)
+  let v1 := tab (s.val true)
+  let p0 := tab (s.ptr false)
+  let p1 := tab (s.ptr true)
+  let h0 := tab (fun k => s.heap k false)
+  let h1 := tab (fun k => s.heap k true)
+  let sp := tab s.spare
+  let lv := tab s.lastValues
+  { s with
+    val := fun b k => if b then v1.getD k 0 else v0.getD k 0
+    ptr := fun b k => if b then p1.getD k false else p0.getD k false
+    heap := fun k b => if b then h1.getD k 0 else h0.getD k 0
+    spare := fun k => sp.getD k none
+    lastValues := fun i => lv.getD i 0 }
+
 def runOps (g : Graph Int) : St Int → List J → Except String (List J)
   | _, [] => pure []
   | s, op :: ops => do
@@ -48,11 +68,11 @@ def runOps (g : Graph Int) : St Int → List J → Except String (List J)
       let o := match snap g r.1 r.2 r.2.isNone with
         | J.obj kvs => J.obj (kvs ++ [("assert_ok", J.bool ok)])
         | x => x
-      pure (o :: (← runOps g r.1 ops))
+      pure (o :: (← runOps g (freeze g r.1) ops))
     | [J.str "call", v] => do
       let vs ← v.toListOf J.toInt
       let r := call g s vs
-      pure (snap g r.1 r.2 r.2.isNone :: (← runOps g r.1 ops))
+      pure (snap g r.1 r.2 r.2.isNone :: (← runOps g (freeze g r.1) ops))
     | _ => throw "bad op"
 
 def optJ : Option (List Int) → J
@@ -67,7 +87,7 @@ def handle (cmd : String) (j : J) : Except String J :=
     match init g (fun i => x0.getD i 0) with
     | none => pure (J.obj [("init", J.str "raises")])
     | some s0 => do
-      let steps ← runOps g s0 (← (← j.get "ops").toList)
+      let steps ← runOps g (freeze g s0) (← (← j.get "ops").toList)
       pure (J.obj [("init", snap g s0 none false), ("steps", J.arr steps)])
   | "fresh" => do
     let g ← parseGraph (← j.get "graph")
